@@ -551,6 +551,55 @@ Section Model.
   Definition conv_keys (cells : list (Z * cell)) : list Z :=
     map fst (filter (fun kc => converted (snd kc)) cells).
 
+  (* ---- cells generated by FILL (CellConversion.pot_fill) ---- *)
+
+  (* the cells of the filling universe whose copies are made for the cell
+     [key] (nested FILLs followed; a lattice FILL is developed elsewhere and is
+     not modelled: no leaves) *)
+  Fixpoint fill_leaves (fuel : nat) (cells : list (Z * cell)) (key : Z) : list Z :=
+    match fuel with
+    | O => []
+    | S f =>
+        match dict_get Z.eqb key cells with
+        | None => []
+        | Some c =>
+            match c_fill c with
+            | FNone => [key]
+            | FUniv u =>
+                flat_map (fill_leaves f cells)
+                         (map fst (filter (fun kc => (c_u (snd kc) =? u)%Z) cells))
+            | FLattice _ _ => []
+            end
+        end
+    end.
+
+  (* new_cell = cell.copy(): the container's importance and universe, no FILL,
+     material and density of the universe cell *)
+  Definition fill_copy (container leaf : cell) : cell :=
+    mkCell (c_mat leaf) (c_rho leaf) (c_geom container) (c_imp container) (c_u container)
+           FNone (c_filltr container) (c_lat container) (c_trcl container).
+
+  (* (universe cell, container, generated cell) for every level-0 cell filled
+     with a universe *)
+  Definition generated (cells : list (Z * cell)) : list (Z * Z * cell) :=
+    flat_map (fun kc =>
+      match c_fill (snd kc) with
+      | FUniv _ =>
+          if (c_u (snd kc) =? 0)%Z then
+            flat_map (fun leaf =>
+                        match dict_get Z.eqb leaf cells with
+                        | Some lc => [(leaf, fst kc, fill_copy (snd kc) lc)]
+                        | None => []
+                        end)
+                     (fill_leaves (S (List.length cells)) cells (fst kc))
+          else []
+      | _ => []
+      end) cells.
+
+  (* the generated cells that pass the conv_keys filter: (universe cell, container) *)
+  Definition conv_generated (cells : list (Z * cell)) : list (Z * Z) :=
+    map (fun g => (fst (fst g), snd (fst g))) (filter (fun g => converted (snd g)) (generated cells)).
+
   (* writeT4Geometry on a deck without FILL: a VOLU line for every converted
      cell unless its key is in the skip list *)
   Definition written_ids (cells : list (Z * cell)) (skipped : list Z) : list Z :=
